@@ -300,6 +300,9 @@ pub const ATOMS: &[&str] = &[
     "[**w** v](http://x)",
     "[w `c`](http://x)",
     "[*w*](k)",
+    // schemes are case-insensitive
+    "[w](HTTPS://X.y/z)",
+    "<Mailto:a@b.c>",
 ];
 
 pub const HOSTS: &[&str] = &["para", "heading", "item", "nested-item", "quote", "cell"];
@@ -448,7 +451,7 @@ pub fn wide_container_docs(emit: &mut dyn FnMut(&str)) {
     ];
     for (_, first, cont, tail_prefix) in containers {
         for n in 1..=5usize {
-            for variant in ["plain", "code", "heading", "quote", "heading-first", "code-first"] {
+            for variant in ["plain", "code", "heading", "quote", "heading-first", "code-first", "quote-first"] {
                 for tail in 0..=2usize {
                   for tight in [false, true] {
                     if variant != "plain" && n < 2 {
@@ -463,7 +466,7 @@ pub fn wide_container_docs(emit: &mut dyn FnMut(&str)) {
                     for i in 0..n {
                         let lead = if i == 0 { first.to_string() } else { cont.to_string() };
                         let blank = cont.trim_end().to_string();
-                        let special = (variant == "code" || variant == "heading" || variant == "quote") && i == 1 || (variant == "heading-first" || variant == "code-first") && i == 0;
+                        let special = (variant == "code" || variant == "heading" || variant == "quote") && i == 1 || (variant == "heading-first" || variant == "code-first" || variant == "quote-first") && i == 0;
                         let variant = variant.trim_end_matches("-first");
                         if i > 0 && !tight {
                             s.push_str(&format!("{}\n", blank));
@@ -561,6 +564,47 @@ pub fn destination_docs(emit: &mut dyn FnMut(&str)) {
     }
 }
 
+/// link reference definitions (a construct none of the other families has) in every container,
+/// followed by nothing, a newline, or a last line of only whitespace (with / without a newline)
+pub fn refdef_docs(emit: &mut dyn FnMut(&str)) {
+    let containers = ["", "> ", "- ", "1. ", ">- ", "> - ", ">1. ", "> 1. ", "- - ", "- > ", ">> ", "1. > "];
+    let defs = ["[x]:y", "[x]: y", "[x]: <y>", "[x]:y 't'", "[x]: y \"t\""];
+    let endings = ["", "\n", "\n\t", "\n    ", "\n\t\n", "\n \n", "\n\nsee [x]\n", "\ntext\n"];
+    for c in containers {
+        for d in defs {
+            for e in endings {
+                emit(&format!("{}{}{}", c, d, e));
+                emit(&format!("text\n\n{}{}{}", c, d, e));
+            }
+        }
+    }
+}
+
+/// items that start with text-less nested lists (1..=3 levels of markers without any text, also an
+/// empty quote inside), continue with text, are followed by 0..=2 more items and by 0..=1 block
+pub fn blank_nested_docs(emit: &mut dyn FnMut(&str)) {
+    let starts = ["- -", "- - +", "- - - *", "1. -", "1. - +", "- 1.", "- - >", "- >", "- > -", "> - - +"];
+    for st in starts {
+        for cont in ["", "\n  text\n", "\n\n  text\n", "\n  ```\n  code\n  ```\n"] {
+            for more in 0..=2usize {
+                for after in ["", "\npara\n", "\n## head\n"] {
+                    let marker = if st.starts_with("1.") { "2. " } else if st.starts_with('>') { "> - " } else { "- " };
+                    let mut s = format!("{}{}", st, if cont.is_empty() { "\n" } else { cont });
+                    if st.starts_with('>') {
+                        // continuation lines of a quoted list need the quote marker
+                        s = s.replace("\n  ", "\n>   ");
+                    }
+                    for m in 0..more {
+                        s.push_str(&format!("{}item{}\n", marker, m));
+                    }
+                    s.push_str(after);
+                    emit(&s);
+                }
+            }
+        }
+    }
+}
+
 pub const SCALE_FAMILIES: &[&str] = &[
     "paragraphs", "items", "ordered-items", "headings", "nested-headings", "table-rows", "links", "refs", "nested-quotes",
     "nested-lists", "nested-emphasis", "long-line", "long-words", "rules", "code-blocks",
@@ -575,6 +619,8 @@ pub fn doc_space(tier: Tier, emit: &mut dyn FnMut(&str)) {
             wide_container_docs(emit);
             sibling_run_docs(emit);
             destination_docs(emit);
+            refdef_docs(emit);
+            blank_nested_docs(emit);
         }
         Tier::Thorough => {
             token_strings(4, emit);
@@ -583,6 +629,8 @@ pub fn doc_space(tier: Tier, emit: &mut dyn FnMut(&str)) {
             wide_container_docs(emit);
             sibling_run_docs(emit);
             destination_docs(emit);
+            refdef_docs(emit);
+            blank_nested_docs(emit);
         }
     }
 }
